@@ -5,7 +5,7 @@ from .common import (
 PID = 'C02'
 ENGINE = 'E1'
 LEVEL = 'exploration'
-RULE = ('One case = generated workflow with execution/submission retry delays (N,M in 0..2) + an outcome plan with failing, submit-failing, vanishing jobs and jobs that are accepted by the job runner but lost before they start (found by polling) + a seeded schedule (delay/dup/reorder; a third of runs add message loss and poll failures). Distinct = distinct (program, schedule digest); non-trivial = some instance was submitted more than once (a retry actually ran).')
+RULE = ('One case = generated workflow with execution/submission retry delays (N,M in 0..2) + an outcome plan with failing, submit-failing, vanishing jobs and jobs that are accepted by the job runner but lost before they start (found by polling) + a seeded schedule (delay/dup/reorder; a third of runs add message loss and poll failures). A share of the cases reloads the unchanged definition once in mid-run. Distinct = distinct (program, schedule digest); non-trivial = some instance was submitted more than once (a retry actually ran).')
 ASSUMPTIONS = [
     'jobs, polls, submissions, message transport and the clock are simulated',
     'reference model / invariants cover the generated workflow sub-language',
